@@ -437,7 +437,7 @@ BOUNDED = {
     "C04": [dict(family="front", args_quick=["--depth", "1"], args_thorough=["--depth", "2"],
                  obligation="frontend/bounded-standin/front.extract",
                  known_cases="contracts/known_front_cases.txt",
-                 what="the frontend, printer and glue (swc ASTs, trait objects, symbol tables: outside Verus' dialect) through the public entry point beff_core::extract: every program `type X = E; parse.buildParsers<{X: X}>()` for E built from 35 leaf types (basic types, literals, named object/union/tuple/recursive/generic types) with one type constructor out of 45 unary and 17 binary ones (arrays, tuples, objects, mapped and conditional types, keyof, indexed access, Record/Partial/Pick/Omit/Exclude/Extract, template literals, ...) - 22651 programs in the quick tier; a second constructor on top, thinned, in the thorough tier - 817581 programs; plus 48 hand-written + 168 generated same-name layouts multi-file / malformed / circular projects. Checked per program, as the property states it: the call returns within 20 s, does not panic or crash the process, returns generated code (emit_code Ok and non-empty) or at least one diagnostic, every diagnostic names a file of the project and a line/column/byte range inside it, and the emitted module defines every named runtype exactly once, refers only to named runtypes it defines and has a buildParsersInput entry for every requested name. NOT checked: that the emitted module loads in Node (no TypeScript compiler for the client runtime offline)"),
+                 what="the frontend, printer and glue (swc ASTs, trait objects, symbol tables: outside Verus' dialect) through the public entry point beff_core::extract: every program `type X = E; parse.buildParsers<{X: X}>()` for E built from 35 leaf types (basic types, literals, named object/union/tuple/recursive/generic types) with one type constructor out of 45 unary and 17 binary ones (arrays, tuples, objects, mapped and conditional types, keyof, indexed access, Record/Partial/Pick/Omit/Exclude/Extract, template literals, ...) - 22656 programs in the quick tier; a second constructor on top, thinned, in the thorough tier - 817586 programs; plus 53 hand-written + 168 generated same-name layouts multi-file / malformed / circular projects. Checked per program, as the property states it: the call returns within 20 s, does not panic or crash the process, returns generated code (emit_code Ok and non-empty) or at least one diagnostic, every diagnostic names a file of the project and a line/column/byte range inside it, and the emitted module defines every named runtype exactly once, refers only to named runtypes it defines and has a buildParsersInput entry for every requested name. NOT checked: that the emitted module loads in Node (no TypeScript compiler for the client runtime offline)"),
             dict(family="refspanic", obligation="conversion/bounded-standin/refs.no_panic",
                  known_cases="contracts/known_refspanic_cases.txt",
                  what="convert_to_sem_type + is_subtype on named, possibly recursive types (not under contract): the 23769 questions of the `refs` family (see C05), a case fails only when the real code PANICS")],
@@ -459,7 +459,7 @@ BOUNDED = {
                  what="list_is_empty / list_inhabited (assumed decider of C05): `a <: b | c` for tuple shapes with prefix <= 2 over {string, number} and an optional rest in {string, number}, against brute force over all lists of length <= 4 over three basic values"),
             dict(family="listneg2", obligation="list_shape/bounded-standin/listneg2.list_is_empty",
                  known_cases="contracts/known_listneg2_cases.txt",
-                 what="the same decider on a larger universe: prefixes up to length 3 over {string, number}, optional rest; `a <: b | c` for all 45^3 triples and `a <: b | c | d` with thinned negatives; item types string | number as well, prefixes up to length 2 (52 shapes, all triples); the negatives converted before the positive; 291628 questions, against brute force over all lists of length <= 5"),
+                 what="the same decider on a larger universe: prefixes up to length 3 over {string, number}, optional rest; `a <: b | c` for all 45^3 triples and `a <: b | c | d` with thinned negatives; item types string | number as well, prefixes up to length 2 (52 shapes, all triples); the negatives converted before the positive; 483235 questions (three negatives in every order over the union-item shapes too), against brute force over all lists of length <= 5"),
             dict(family="idxsig", obligation="mapping_dnf/bounded-standin/idxsig.dnf_mapping_is_empty",
                  known_cases="contracts/known_idxsig_cases.txt",
                  what="the object decider on index signatures with a pattern key domain: `S(v) <: B` for the 19 exact objects over the keys a, xa, 1 with values 1 / \"s\" against {[k: K]: T}, K in {string, `x${string}`}, T in {string, number}, and unions / intersections of two of them (refused intersections skipped); oracle: every property whose key lies in K has a value in T; then the same targets against LEFT types that are index signatures themselves ({[k: K]: T'}, T' also string | number), brute force over the 27 objects with the keys a, xa, 1; 628 questions"),
